@@ -145,7 +145,9 @@ Definition math_equal (a b : value) : option bool :=
   | VMem x, VMem y => Some (bytes_eqb x y)
   | VDouble d1 t1, VDouble d2 _ =>
       if d_is_nan d1 || d_is_nan d2 then Some false
-      else None            (* non-NaN doubles: doubles_equal, decided by C03's theorems on the shared model *)
+      else Some (doubles_equal d1 d2 t1)
+      (* non-NaN doubles: "by the expectation's tolerance" = the IEEE-754 predicate |d1 - d2| <= t1 with the same-infinity rule,
+         as defined in lib/Dbl.v over Flocq; C03's theorems relate that definition to the real-number statement *)
   | _, _ => Some false
   end.
 
